@@ -78,7 +78,7 @@ Section Plain.
     apply andb_prop in H as [H _]. apply andb_prop in H as [H Ha]. apply andb_prop in H as [Hname Hb].
     destruct (aget (S "fragname") (na n)) as [[| | | |s| | |]|] eqn:E; try discriminate.
     apply negb_true_iff in Hb. unfold ahas in Hb. destruct (aget (S "bonding") (na n)) eqn:Eb; [discriminate|].
-    unfold node_text, format_node, bonding_suffix, node_attrs, ntext, name_of, node_name, node_get. rewrite Hf.
+    unfold node_text. rewrite format_node_eq. unfold bonding_suffix, node_attrs, ntext, name_of, node_name, node_get. rewrite Hf.
     cbn [bind]. rewrite E, Eb. cbn [bind of_option py_format]. now rewrite app_nil_r.
   Qed.
   Lemma plain_edge p k : In k (neighbors g p) -> edge_text g p k = Ok (stext (esym_of g) p k).
